@@ -1,13 +1,26 @@
 import Tfv.Model.Graph
 import Tfv.Model.Workflow
+import Tfv.Proofs.GraphExpr
+import Tfv.Proofs.GraphNorm
 /-!
 # Running example for the graph theorems
 
 Language: builtins, `A` (5), `B < A` (6), `C < B` (7), covariant unary `F` (8); canon `{A, F(A), F(B), F(C), B, C}`
 (= `mkCanon exL {} [A, F(A)]`, see `Tfv.C10Ex.canonA_eq`; written out so that the kernel evaluates quickly).
+
+The graph's store is the default empty one and every type in the examples is variable-free. `normT` (well-founded
+recursion) does not reduce in the kernel, so a run of `addExpr` is first brought into the factored form of
+`Tfv/Proofs/GraphExpr.lean`, every `normT σ t` is rewritten to `t` by `GraphN.normT_closed`, and the rest is evaluated
+by the kernel (tactic `graph_eval`).
 -/
 namespace Tfv.GraphEx
 open Tfv
+
+/-- evaluate a concrete run of `addExpr` over variable-free types -/
+macro "graph_eval" : tactic => `(tactic| (
+  simp only [addExpr_app, addExpr_op, addExpr_src, addExpr_shared, opBody, srcBody]
+  simp (disch := decide) only [GraphN.normT_closed]
+  decide +kernel))
 
 def exL : Lang := builtinDecls ++
   [⟨"A", [], none⟩, ⟨"B", [], some 5⟩, ⟨"C", [], some 6⟩, ⟨"F", [true], none⟩]
@@ -41,7 +54,8 @@ def run2 : Except GErr (GState × Nat) := addExpr exG {} root none (initGraph ex
 
 theorem run2_fd : run2.toOption.map (fun p => (p.1.fd.frm, p.1.fd.dep, p.1.internals, p.2))
     = some ([(2, 3), (0, 3), (0, 1), (1, 2)], [(1, 2), (0, 1), (0, 2), (0, 3), (2, 3), (1, 3)], [(0, 2)], 0) := by
-  decide +kernel
+  unfold run2 ex2
+  graph_eval
 
 def run1 : Except GErr (GState × Nat) := addExpr exG {} root none (initGraph exG {}) ex1 none false
 
@@ -50,7 +64,8 @@ theorem run1_triples : run1.toOption.map (fun p => (p.1.triples, p.1.fd.frm, p.1
       (.b 0, .tf "type", .ns "B"), (.b 0, .tf "subtypeOf", .ns "B"), (root, .tf "containsType", .ns "B"),
       (root, .tf "containsType", .ns "A"), (.b 0, .tf "subtypeOf", .ns "A"),
       (.b 1, .tf "type", .ns "A"), (.b 1, .tf "subtypeOf", .ns "A")], [(0, 1)], [(0, 1)], 0) := by
-  decide +kernel
+  unfold run1 ex1
+  graph_eval
 
 /-- the same expression with `with_dependencies` off -/
 def run2nd : Except GErr (GState × Nat) :=
@@ -58,7 +73,8 @@ def run2nd : Except GErr (GState × Nat) :=
 
 theorem run2nd_fd : run2nd.toOption.map (fun p => (p.1.fd.frm, p.1.fd.dep))
     = some ([(2, 3), (0, 3), (0, 1), (1, 2)], []) := by
-  decide +kernel
+  unfold run2nd ex2
+  graph_eval
 
 /-! ### a workflow: source `r0 : A`, `r1 = f r0`, `r2 = g r1` with `f : A → B`, `g : B → C` -/
 
@@ -80,7 +96,10 @@ def runWfNode : Except WErr (GState × Nat) :=
 
 theorem runWfNode_fd : runWfNode.toOption.map (fun p => (p.1.fd.frm, p.1.fd.dep, p.1.sharedNodes, p.2))
     = some ([(3, 1), (1, 0)], [(1, 0), (3, 1), (3, 0)], [(1, 1), (2, 3)], 3) := by
-  decide +kernel
+  unfold runWfNode
+  simp only [wfNode, wf1exprs, wf1, Wf.app?, List.find?, Option.map, Nat.reduceBEq, List.contains, List.elem,
+    List.foldlM]
+  graph_eval
 
 /-! ### annotating a node of type `C` (supertypes `B`, `A`) -/
 
@@ -88,6 +107,47 @@ theorem annC_triples : ((annotateType exG {} (initGraph exG {}) root 0 tmC false
     = some [(.b 0, .tf "type", .ns "C"), (.b 0, .tf "subtypeOf", .ns "C"), (root, .tf "containsType", .ns "C"),
       (root, .tf "containsType", .ns "B"), (.b 0, .tf "subtypeOf", .ns "B"),
       (root, .tf "containsType", .ns "A"), (.b 0, .tf "subtypeOf", .ns "A")] := by
+  decide +kernel
+
+/-! ### stale types: a stored type that still shows the variable `x0`, which the store has bound to `B` since -/
+
+def staleStore : Store := { vars := [{ bound := some tmB }], csets := [[]] }
+
+/-- the running example's language with the store in which `x0 := B` -/
+def exGs : GLang := { exG with store := staleStore }
+
+theorem normT_stale_var : normT exGs.store (.var 0) = tmB := by
+  show normTerm staleStore (64 + 1) (.var 0) = tmB
+  rw [normTerm]
+  have hf : followT staleStore (.var 0) = .app 6 [] := by rfl
+  rw [hf]
+  simp only []
+  rw [normTermL]
+  rfl
+
+theorem normT_stale_out : normT exGs.store (outputType 1000 (tmFn tmA (.var 0))) = tB.toTerm :=
+  normT_stale_var
+
+/-- an operator `h : A → x0`: `output()` walks the stored type and finds `x0`, `normalize()` follows it to `B`; the
+node is annotated with `B` and its supertypes -/
+theorem staleOp_triples :
+    ((addExpr exGs {} root none (initGraph exGs {}) (.op "h" (tmFn tmA (.var 0))) (some 7) false).toOption.map
+      (fun p => (p.2, p.1.triples)))
+    = some (7, [(.b 7, .tf "via", .ns "h"), (root, .tf "containsOperation", .ns "h"),
+        (.b 7, .tf "type", .ns "B"), (.b 7, .tf "subtypeOf", .ns "B"), (root, .tf "containsType", .ns "B"),
+        (root, .tf "containsType", .ns "A"), (.b 7, .tf "subtypeOf", .ns "A")]) := by
+  simp only [addExpr_op, opBody]
+  rw [normT_stale_out]
+  decide +kernel
+
+/-- a source whose stored type is the variable `x0`: `expr.type in canon` is decided on the stored type (not a
+member), the annotated type is the followed one: the node gets `type B` but no `subtypeOf` -/
+theorem staleSrc_triples :
+    ((addExpr exGs {} root none (initGraph exGs {}) (.src 0 none (.var 0)) (some 7) false).toOption.map
+      (fun p => (p.2, p.1.triples)))
+    = some (7, [(.b 7, .tf "type", .ns "B"), (root, .tf "containsType", .ns "B")]) := by
+  simp only [addExpr_src, srcBody]
+  rw [normT_stale_var]
   decide +kernel
 
 end Tfv.GraphEx
